@@ -12,6 +12,10 @@ CHECKS = {
             "Seeded whole-pipeline simulation with a solver peer biased to tempt the accept/reject logic (non-optimal, cost-maximising, no model/unsat with and without a greedy candidate, greedy forced to fail); every emitted block is priced by the independent cost model R4 and compared with its input; printed totals are compared with R4 sums over the input and the emitted file.",
             "Trusts R4 (gsim/ref/cost.py) as transcription of the documented static cost model; sampled blocks/option sets.",
             TECH + ": peer replies chosen to tempt the acceptance gate, independent cost model as oracle"),
+    "C09": ("exploration", "§5 C09",
+            "Seeded whole-pipeline simulation on synthetic documents and on windows of the shipped solc outputs; the solver peer succeeds/fails per call with a per-run probability so the stitching code meets every interleaving of replaced and untouched segments; an independent JSON walker compares skeleton entries field by field, metadata, well-formedness of emitted items, and the tool's own parser re-reads each emitted file.",
+            "Trusts the independent walker R5 (gsim/ref/asmjson.py, checks/c09.py); PUSH 0 and PUSH0 are treated as the same item; numeric pseudo-push operands are compared as hex numbers.",
+            TECH + ": per-sub-block peer success/failure patterns over the real pipeline, independent JSON walker as oracle"),
 }
 NA = {
     "C03": "pure function of a term on 256-bit words: no schedule, clock, peer, file, crash or history between term and rewritten term (rule bait still runs through C01/C02 as a side effect)",
